@@ -459,6 +459,9 @@ func minimizeCase[C any](p Prop[C], c C) (C, Result, bool) {
 	}
 	kind := failKind(r0.Err)
 	budget := 4000
+	if b, err := strconv.Atoi(os.Getenv("VERIF_MINBUDGET")); err == nil && b > 0 {
+		budget = b // expensive checks (one shell per evaluation) lower it
+	}
 	clone := func() C {
 		var c2 C
 		UnmarshalCase(MarshalCase(c), &c2)
